@@ -174,10 +174,19 @@ func (c caseA) allowed(fx *cat.Fixture, e *cat.Entry) (ok bool, judged bool) {
 	return ok, true
 }
 
+// srcOf: the bucket/key the copy source designates (a raw source may carry a leading slash and a
+// "?versionId=" suffix, which are not part of the key the access decision is about)
 func srcOf(fx *cat.Fixture, sp cat.Spec) string {
 	s := sp.Src
 	if s == "" {
 		s = "A/obj"
+	}
+	if strings.HasPrefix(s, "=") {
+		raw := strings.TrimPrefix(s[1:], "/")
+		if i := strings.LastIndex(raw, "?versionId="); i >= 0 {
+			raw = raw[:i]
+		}
+		return raw
 	}
 	b, k, _ := strings.Cut(s, "/")
 	rb, rk := fx.Resolve(cat.Spec{Bucket: b, Key: k})
@@ -410,6 +419,13 @@ func genCase(t *rapid.T) caseA {
 	c.Spec.Key = "=" + rapid.SampledFrom(objKeys).Draw(t, "key")
 	if rapid.IntRange(0, 2).Draw(t, "src") == 0 {
 		c.Spec.Src = rapid.SampledFrom([]string{"A/obj", "B/secret", "A/nested", "L/locked"}).Draw(t, "src_name")
+		// the same source spelled with a leading slash and / or a version suffix: the decision is about the key
+		if form := rapid.IntRange(0, 4).Draw(t, "src_form"); form > 0 {
+			b, k, _ := strings.Cut(c.Spec.Src, "/")
+			rb := map[string]string{"A": "bkt-a", "B": "bkt-b", "L": "bkt-l"}[b]
+			rk := map[string]string{"obj": cat.KeyObj, "secret": cat.KeySecret, "nested": cat.KeyNested, "locked": cat.KeyLocked}[k]
+			c.Spec.Src = "=" + []string{"", "/", "", "/", ""}[form] + rb + "/" + rk + []string{"", "", "?versionId=", "?versionId=", "?versionId="}[form]
+		}
 	}
 	c.Caller = rapid.SampledFrom([]string{"bob", "bob", "carol", "carol", "alice", "dave"}).Draw(t, "caller")
 	if c.Spec.Op == "DeleteObjects" {
